@@ -6,8 +6,9 @@
 // configurations with per-endpoint mixes of default / custom path / absolute URL /
 // nil. Per (configuration, router): the document and a probe of every endpoint
 // and the ID token's issuer (IDoc), every grant type at the token endpoint
-// (IGrants), PKCE methods x verifier relations (IPkce), a signed request object
-// (IReqObj). Then issuer strings for ValidateIssuer / NewProvider (IIssuer) and
+// (IGrants), PKCE: client kind (basic / post / private_key_jwt / public) x challenge
+// method (S256, plain, none) x verifier (hashes to / equals / unrelated to the
+// challenge, or absent) (IPkce), a signed request object per client kind (IReqObj). Then issuer strings for ValidateIssuer / NewProvider (IIssuer) and
 // client.Discover against a stub transport (IDiscover).
 package main
 
@@ -90,17 +91,34 @@ var grantStrings = []string{"authorization_code", "implicit", "refresh_token", "
 
 const verifier = "verifier-verifier-verifier-verifier-verifier-123"
 
+// pkceCase: which challenge goes with the authorization request and what the token request sends.
 type pkceCase struct {
-	method, rel, challenge string
+	kind      clientKind
+	method    string // "" = no challenge at all
+	rel       string // vrel constructor
+	challenge string
+	verifier  string // "" = no code_verifier parameter
 }
 
+// every client kind x {S256, plain, no challenge} x {verifier hashing to the challenge, equal to it, unrelated, absent}
 func pkceCases() []pkceCase {
 	var out []pkceCase
-	for _, m := range []string{"S256", "plain"} {
-		out = append(out, pkceCase{m, "VS256", opfix.S256(verifier)}, pkceCase{m, "VPlain", verifier}, pkceCase{m, "VNone", "some-other-challenge-some-other-challenge-1234"})
+	for _, k := range clientKinds {
+		for _, m := range []string{"S256", "plain"} {
+			out = append(out,
+				pkceCase{k, m, "VS256", opfix.S256(verifier), verifier},
+				pkceCase{k, m, "VPlain", verifier, verifier},
+				pkceCase{k, m, "VNone", "some-other-challenge-some-other-challenge-1234", verifier},
+				pkceCase{k, m, "VAbsent", opfix.S256(verifier), ""},
+				pkceCase{k, m, "VAbsent", verifier, ""})
+		}
+		out = append(out, pkceCase{k, "", "VNone", "", verifier}, pkceCase{k, "", "VAbsent", "", ""})
 	}
 	return out
 }
+
+var roCursor int
+var pkceCursor int // walks through pkceCases() across configurations so that every cell is visited evenly
 
 func optStrList(l [nEps]*string) string {
 	items := make([]string, len(l))
@@ -183,31 +201,45 @@ func runConfig(w *emit.Writer, r drv.Rand, c config, sweep string, nPkce int) {
 				Tags:     append([]string{"kind=grants"}, base...), Human: human})
 		}
 
-		// ---- PKCE
+		// ---- PKCE: client kind x challenge method x verifier relation (absent included)
 		if eps[iAuth].Kind != epNil && eps[iToken].Kind != epNil {
-			pcs := pkceCases()
-			if nPkce < len(pcs) {
-				r.Shuffle(len(pcs), func(i, j int) { pcs[i], pcs[j] = pcs[j], pcs[i] })
-				pcs = pcs[:nPkce]
-			}
-			for _, pc := range pcs {
-				tr := f.codeFlow(rt, q, "spa", "", "https://spa.example.com/cb",
-					url.Values{"code_challenge": {pc.challenge}, "code_challenge_method": {pc.method}}, url.Values{"code_verifier": {verifier}})
+			all := pkceCases()
+			for n := 0; n < nPkce; n++ {
+				pc := all[pkceCursor%len(all)]
+				pkceCursor += 1 + r.IntN(3)
+				ea, et := url.Values{}, url.Values{}
+				ch := emit.None
+				if pc.method != "" {
+					ea = url.Values{"code_challenge": {pc.challenge}, "code_challenge_method": {pc.method}}
+					ch = emit.Some(emit.Str(pc.method))
+				}
+				if pc.verifier != "" {
+					et.Set("code_verifier", pc.verifier)
+				}
+				tr := f.codeFlow(rt, q, pc.kind, d.issuer, ea, et)
 				obs := "OPanic"
 				if tr != nil && tr.Panic == "" {
 					obs = emit.Ctor("OPkce", emit.StrList(d.pkce), emit.Bool(tr.Status == 200 && tr.Str("access_token") != ""))
 				}
-				w.Add(emit.Case{Input: emit.Ctor("IPkce", routerCoq(rt), cc, emit.Str(pc.method), pc.rel), Observed: obs,
-					Tags: append([]string{"kind=pkce", "method=" + pc.method, "rel=" + pc.rel}, base...), Human: human})
+				method := pc.method
+				if method == "" {
+					method = "none"
+				}
+				w.Add(emit.Case{Input: emit.Ctor("IPkce", routerCoq(rt), cc, pc.kind.coq, ch, pc.rel), Observed: obs,
+					Tags: append([]string{"kind=pkce", "client=" + pc.kind.auth, "method=" + method, "rel=" + pc.rel}, base...), Human: human})
 			}
 		}
 
-		// ---- request object
+		// ---- request object, for a client of every kind
 		if eps[iAuth].Kind != epNil {
-			res := f.requestObjectProbe(rt, q, d.issuer)
-			w.Add(emit.Case{Input: emit.Ctor("IReqObj", routerCoq(rt), cc, q.coq()),
-				Observed: emit.Ctor("OReqObj", emit.Bool(d.reqParam), [...]string{"RoHonoured", "RoNotSupported", "RoOther", "RoPanic"}[res]),
-				Tags:     append([]string{"kind=reqobj"}, base...), Human: human})
+			for n := 0; n < nPkce/2; n++ { // quick: 2 kinds per (configuration, router), thorough: all 4
+				k := clientKinds[roCursor%len(clientKinds)]
+				roCursor++
+				res := f.requestObjectProbe(rt, q, k, d.issuer)
+				w.Add(emit.Case{Input: emit.Ctor("IReqObj", routerCoq(rt), cc, k.coq, q.coq()),
+					Observed: emit.Ctor("OReqObj", emit.Bool(d.reqParam), [...]string{"RoHonoured", "RoNotSupported", "RoOther", "RoPanic"}[res]),
+					Tags:     append([]string{"kind=reqobj", "client=" + k.auth}, base...), Human: human})
+			}
 		}
 	}
 }
@@ -405,9 +437,9 @@ func main() {
 		}
 	}
 	nGrid := cfg.Count(192, len(grid))
-	nPkce := 2
+	nPkce := 4
 	if !cfg.Quick {
-		nPkce = 6
+		nPkce = 8
 	}
 	if nGrid < len(grid) {
 		r.Shuffle(len(grid), func(i, j int) { grid[i], grid[j] = grid[j], grid[i] })
@@ -450,7 +482,7 @@ func main() {
 			}
 		}
 		setIssuer(&c, r.IntN(3))
-		runConfig(w, r, c, "mixed", 2)
+		runConfig(w, r, c, "mixed", nPkce)
 	}
 
 	// ---- issuer strings
@@ -493,6 +525,7 @@ func main() {
 	err := w.Close(emit.Meta{Property: "C19", Tier: cfg.Tier, Seed: cfg.Seed, Exhaustive: !cfg.Quick && cfg.N == 0,
 		Rule: "grid = 2^5 flags x 2^3 capabilities x {default, custom paths} x {static, host, forwarded} (thorough: all 1536 points, quick: seeded sample), " +
 			"each on both routers with a random request (Host, Forwarded) and issuer variant; for the host / forwarded strategies a sequence of 6 requests (same Host + other Forwarded, other Host + same Forwarded, the first again, no Forwarded, the first again) goes to the one provider instance, one doc case per request; mixed = random per-endpoint default/custom/URL/nil; " +
+			"per (configuration, router): 12 grant strings; PKCE cells client kind x {S256, plain, no challenge} x {VS256, VPlain, VNone, VAbsent} visited round-robin (4 per configuration in quick, 8 in thorough); request object per client kind (2 resp. 4); " +
 			"issuer strings = scheme x authority x path x query marker x fragment marker product + specials; Discover = asked x served variants. " +
 			"Non-trivial = model path class != 0 (everything but the empty-issuer reject); distinct = distinct (input, path class).",
 		Extra: map[string]any{"grid_points": len(grid), "grid_total": 256 * 2 * 3},
